@@ -21,6 +21,9 @@ CONSTANTS BUF,       \* size of the internal buffer in bytes (multiple of 8; the
           BitsOps,   \* counts offered to WriteBits
           ArrOps,    \* bit counts offered to WriteArray
           FailFlush, \* set of flush numbers (1-based) at which the sink fails (the code panics)
+          PartialFlush, \* subset of FailFlush: at these the sink first accepts half of the bytes, then reports the error
+          PartialImpl,  \* "latch": the stream stays failed after a partial write (the code); "resend": as found before fix F13 (the
+                        \* whole buffer is offered again); "resume": keep the remainder, count the accepted bytes (seed C17c)
           CloseImpl  \* "asis": a failed Close restores the accumulator fields but not `written` (F19); "fixed": all of them
 
 X == -1
@@ -33,21 +36,33 @@ Val(first, count) == [i \in 1..64 |-> IF i > 64 - count THEN first + (i - (64 - 
 WordSeq(w) == [i \in 1..64 |-> w[i]]
 Ids(first, n) == [k \in 1..n |-> first + k - 1]
 
-VARIABLES cur, avail, pos, buf, written, sink, closed, n, flushes, status
-vars == <<cur, avail, pos, buf, written, sink, closed, n, flushes, status>>
+VARIABLES cur, avail, pos, buf, written, sink, closed, n, flushes, status, latch
+vars == <<cur, avail, pos, buf, written, sink, closed, n, flushes, status, latch>>
 \* buf: the bits of buffer[0:position] (8*pos ids); n: bits written so far by the caller; status: "ok" | "panic"
 
 Init == /\ cur = ZeroW /\ avail = 64 /\ pos = 0 /\ buf = <<>> /\ written = 0 /\ sink = <<>> /\ closed = FALSE
-        /\ n = 0 /\ flushes = 0 /\ status = "ok"
+        /\ n = 0 /\ flushes = 0 /\ status = "ok" /\ latch = FALSE
 
 (***************************************************************************)
 (* The state of the stream as a record, so that the helpers compose.       *)
 (***************************************************************************)
-St == [cur |-> cur, avail |-> avail, pos |-> pos, buf |-> buf, written |-> written, sink |-> sink, flushes |-> flushes, ok |-> TRUE]
+St == [cur |-> cur, avail |-> avail, pos |-> pos, buf |-> buf, written |-> written, sink |-> sink, flushes |-> flushes, ok |-> TRUE,
+       latch |-> latch]
 
 \* flush(): write buffer[0:position] to the sink  (l.214-229)
 Flush(s) == IF ~s.ok THEN s
+            ELSE IF s.latch THEN [s EXCEPT !.ok = FALSE]                    \* this.failed != nil
             ELSE IF s.pos = 0 THEN s
+            ELSE IF (s.flushes + 1) \in PartialFlush THEN
+                 \* the sink takes the first half of the buffer (whole bytes) and reports an error
+                 LET h == s.pos \div 2
+                     taken == [i \in 1..(8 * h) |-> s.buf[i]]
+                     rest == [i \in 1..(8 * (s.pos - h)) |-> s.buf[8 * h + i]]
+                 IN IF PartialImpl = "resume"
+                    THEN [s EXCEPT !.ok = FALSE, !.flushes = s.flushes + 1, !.sink = s.sink \o taken, !.buf = rest, !.pos = s.pos - h,
+                                   !.written = s.written + 8 * h]
+                    ELSE [s EXCEPT !.ok = FALSE, !.flushes = s.flushes + 1, !.sink = s.sink \o taken,
+                                   !.latch = (PartialImpl = "latch" /\ h > 0)]
             ELSE IF (s.flushes + 1) \in FailFlush THEN [s EXCEPT !.ok = FALSE, !.flushes = s.flushes + 1]
             ELSE [s EXCEPT !.sink = s.sink \o s.buf, !.written = s.written + 8 * s.pos, !.pos = 0, !.buf = <<>>, !.flushes = s.flushes + 1]
 
@@ -137,7 +152,7 @@ WArray(s, first, count) ==
 
 Apply(s, bits) ==
     /\ cur' = s.cur /\ avail' = s.avail /\ pos' = s.pos /\ buf' = s.buf /\ written' = s.written /\ sink' = s.sink
-    /\ flushes' = s.flushes
+    /\ flushes' = s.flushes /\ latch' = s.latch
     /\ status' = IF s.ok THEN "ok" ELSE "panic"
     /\ n' = IF s.ok THEN n + bits ELSE n
     /\ UNCHANGED closed
@@ -170,12 +185,13 @@ CloseOp ==
        IN IF s3.ok
           THEN /\ closed' = TRUE
                /\ cur' = s3.cur /\ avail' = 0 /\ pos' = 0 /\ buf' = <<>> /\ written' = s3.written - 64 /\ sink' = s3.sink
-               /\ flushes' = s3.flushes /\ UNCHANGED <<n, status>>
+               /\ flushes' = s3.flushes /\ latch' = s3.latch /\ UNCHANGED <<n, status>>
           ELSE \* the error is returned, the fields are restored for a later attempt; as found the padding stays subtracted
                \* from `written`, so Written() is short by the padding after the failed attempt and by twice that after a retry
-               /\ flushes' = s3.flushes
+               \* (what the sink accepted of a partial write stays in the sink)
+               /\ flushes' = s3.flushes /\ latch' = s3.latch /\ sink' = s3.sink
                /\ written' = IF CloseImpl = "asis" THEN s2.written ELSE written
-               /\ UNCHANGED <<cur, avail, pos, buf, sink, closed, n, status>>
+               /\ UNCHANGED <<cur, avail, pos, buf, closed, n, status>>
 
 Done == (closed \/ status = "panic" \/ n >= MaxBits) /\ UNCHANGED vars
 
@@ -189,10 +205,13 @@ Used == [i \in 1..(64 - avail) |-> cur[i]]      \* the bits of `current` that ar
 RECURSIVE IsIota(_, _)
 IsIota(q, i) == i > Len(q) \/ (q[i] = i /\ IsIota(q, i + 1))
 \* the byte image is the big endian concatenation of the written bits, in order, nothing lost, nothing duplicated
-Image == (status = "ok" /\ ~closed) => (LET img == sink \o buf \o Used IN Len(img) = n /\ IsIota(img, 1))
+Image == (status = "ok" /\ ~closed /\ ~latch) => (LET img == sink \o buf \o Used IN Len(img) = n /\ IsIota(img, 1))
 \* ... padded with zeros to a byte boundary once closed
 Closed == closed => /\ Len(sink) = 8 * ((n + 7) \div 8)
                     /\ \A i \in 1..Len(sink) : sink[i] = (IF i <= n THEN i ELSE 0)
+\* C08/C17: whatever happened (failed flushes, partial writes, retried Close), the sink only ever holds a prefix of the right image:
+\* nothing duplicated, nothing out of order
+SinkPrefix == \A i \in 1..Len(sink) : sink[i] = (IF i <= n THEN i ELSE 0)
 \* Written() equals the sum of the operation sizes at every step
 WrittenFn == written + 8 * pos + (64 - avail)
 Counter == status = "ok" => WrittenFn = n
